@@ -523,6 +523,12 @@ def items (sh : Shape) : Nat → DeState → List (Option Item)
   | 0, _ => []
   | k + 1, st => (next st sh).1 :: items sh k (next st sh).2
 
+/-- `Iterator::nth` (the default method: `RangeDeserializer` does not override it): `n` items are
+    pulled with `next` and dropped, the following one is returned -/
+def nth (st : DeState) (sh : Shape) : Nat → Option Item × DeState
+  | 0 => next st sh
+  | n + 1 => nth (next st sh).2 sh n
+
 /-- `Range::deserialize` = `RangeDeserializerBuilder::new().from_range(self)` (default: `Headers::All`) -/
 def rangeDeserialize (std : Std) (r : Rng Data) : DRes DeState := new std .all r
 
